@@ -149,6 +149,7 @@ func runC14(r *ev.Run) {
 		}
 		s.params += fmt.Sprintf(" ntrain=%d", nTrain)
 		var trainErr error
+		var trainBuffers []comet.VectorNode
 		panicked := false
 		func() {
 			defer func() {
@@ -160,7 +161,7 @@ func runC14(r *ev.Run) {
 			tr := mkTrain(nTrain)
 			trainErr = s.idx.Train(tr)
 			if trainErr == nil {
-				scribbleOver(tr) // the caller reuses its training buffers
+				trainBuffers = tr
 			}
 		}()
 		if panicked {
@@ -179,7 +180,16 @@ func runC14(r *ev.Run) {
 				rep(kind+".train-error", err.Error())
 				return
 			}
-			scribbleOver(tr)
+			trainBuffers = tr
+		}
+		// the caller reuses its training buffers: right after Train in half of the cases, otherwise in the middle of the
+		// history, when vectors are already stored (an index whose centroids / codebooks still point into the training
+		// data then decodes stored codes against moved centroids)
+		scribbleAt := -1
+		if rng.IntN(2) == 0 {
+			scribbleOver(trainBuffers)
+		} else {
+			scribbleAt = 2 + rng.IntN(6)
 		}
 		removals, flushes, nonEmpty := 0, 0, 0
 		type entry struct {
@@ -322,6 +332,10 @@ func runC14(r *ev.Run) {
 		}
 		nOps := 6 + rng.IntN(24)
 		for op := 0; op < nOps; op++ {
+			if op == scribbleAt {
+				scribbleOver(trainBuffers)
+				r.Count("ops:training-buffers-overwritten-mid-history", 1)
+			}
 			c := rng.IntN(10)
 			switch {
 			case c < 6 || len(m.live) == 0:
